@@ -9,4 +9,5 @@ INIT Init
 NEXT Next
 INVARIANT OrderFree
 INVARIANT LeakMatters
+INVARIANT HistoryFree
 CHECK_DEADLOCK FALSE
